@@ -204,7 +204,7 @@ Wrapping ==
 \* different language sets, and every near-miss variant that applies, give a
 \* different value (so the "wrong" rows of the table are really wrong)
 Distinct ==
-    /\ \A M \in SUBSET Langs : M # c.L => LangViews(M, c.shape) # v
+    /\ \A M \in SUBSET Langs : M # c.L => LangViews(M, c.shape) # cv
     /\ (0 \in c.L /\ Cardinality(c.L) >= 2 <=> View(c.L, c.shape, "byNumber") # cv)
     /\ (0 \in c.L <=> View(c.L, c.shape, "v1Single") # cv)
     /\ (0 \in c.L <=> View(c.L, c.shape, "v1Definite") # cv)
